@@ -245,8 +245,9 @@ def run_schedule(case, ctx, workdir):
     logging.getLogger("IsoQuant").setLevel(logging.CRITICAL)
     try:
         # earlier, finished runs under the same HOME (they fill the cache); not scheduled
+        hf = case.get("history_folder") or list(range(len(case.get("history", []))))
         for j, k_ in enumerate(case.get("history", [])):
-            hargs = make_args(os.path.join(workdir, "hist_%d" % j), k_)
+            hargs = make_args(os.path.join(workdir, "hist_%d" % hf[j]), k_)
             isoquant.set_configs_directory(hargs)
             g.convert_gtf_to_db(hargs)
         threads = [threading.Thread(target=body, args=(i,), daemon=True) for i in range(n)]
@@ -294,14 +295,18 @@ def schedules(draw, max_n=4):
     sched = draw(st.lists(st.integers(0, max_n - 1), min_size=0, max_size=120 if max_n <= 4 else 240))
     # history: 0-2 finished runs; one concurrent run may write into the folder of a finished run (its own output
     # folder, separate from the folders of the other concurrent runs)
-    history = [draw(st.integers(0, n_ann - 1)) for _ in range(draw(st.sampled_from([0, 0, 1, 2])))]
+    history = [draw(st.integers(0, n_ann - 1)) for _ in range(draw(st.sampled_from([0, 0, 1, 2, 3])))]
+    # a finished run may have written into the folder of an earlier finished run (another annotation of the same file
+    # name): the database that the cache entry of the earlier run points to was rewritten long ago
+    history_folder = [j if j == 0 or draw(st.integers(0, 2)) else draw(st.integers(0, j - 1))
+                      for j in range(len(history))]
     reuse = [None] * n
     free = list(range(len(history)))
     for i in range(n):
         if free and draw(st.integers(0, 2)) == 0:
             reuse[i] = free.pop(draw(st.integers(0, len(free) - 1)))
     return {"n": n, "gtfs": [tiny_gtf(k) for k in range(n_ann)], "gtf_file": gtf_file, "schedule": sched,
-            "flush_each": draw(st.booleans()), "history": history, "reuse": reuse}
+            "flush_each": draw(st.booleans()), "history": history, "reuse": reuse, "history_folder": history_folder}
 
 
 def eval_schedule(case, ctx):
@@ -351,8 +356,29 @@ def eval_schedule(case, ctx):
                               {"process": i, "error": o["error"], "msg": o["msg"], "n": case["n"],
                                "trace_tail": [list(x) for x in trace[-12:]]}, case)
             elif o["transcripts"] != expected[i]:
-                ctx.violation("C20:run-uses-conversion-of-another-annotation" +
-                              (":database-in-another-runs-output-folder" if o.get("foreign_db") else ""),
+                suffix = ""
+                if o.get("foreign_db"):
+                    # known finding: the database in another run's folder is rewritten *while* this run relies on it
+                    # (between its cache lookup and its use).  A rewrite that was finished before this run even looked
+                    # the entry up is something else: the stored modification time no longer matches and the entry
+                    # must be rejected.
+                    folder = os.path.dirname(os.path.abspath(o["db"]))
+                    reuse = case.get("reuse") or [None] * case["n"]
+                    writers = [j for j in range(case["n"]) if j != i and reuse[j] is not None and
+                               os.path.basename(folder) == "hist_%d" % reuse[j]]
+                    pos = {}
+                    for idx_, (t_, w_) in enumerate(trace):
+                        if w_ in ("before-conversion", "after-conversion"):
+                            pos[(t_, w_)] = idx_
+                    mine = pos.get((i, "before-conversion"), -1)
+                    hf = case.get("history_folder") or []
+                    rewritten_in_history = any(f_ != j_ and os.path.basename(folder) == "hist_%d" % f_
+                                               for j_, f_ in enumerate(hf))
+                    finished_before = (writers or rewritten_in_history) and all(
+                        pos.get((j, "after-conversion"), 10 ** 9) < mine for j in writers)
+                    suffix = ":database-in-another-runs-output-folder" + (
+                        ":rewritten-before-this-run-looked-it-up" if finished_before else "")
+                ctx.violation("C20:run-uses-conversion-of-another-annotation" + suffix,
                               {"process": i, "db": o["db"], "got": o["transcripts"], "expected": expected[i]}, case)
     finally:
         shutil.rmtree(d, ignore_errors=True)
